@@ -791,10 +791,15 @@ class XmlDocument(SubXmlBase):
     def gen_members_parent(self, ctx, cls, inst, parent, tag_name, subelts,
                                                                       add_type):
         attrib = {}
+        nsmap = None
         if add_type:
             tnn = cls.get_type_name_ns(self.app.interface)
             if tnn != None:
                 attrib[XSI_TYPE] = tnn
+                # the incremental writer below gets no namespace cleanup pass:
+                # the prefix used in the xsi:type value is declared right here.
+                nsmap = {cls.get_namespace_prefix(self.app.interface):
+                                                           cls.get_namespace()}
             else:
                 # this only happens on incomplete interface states for eg.
                 # get_object_as_xml where the full init is not performed for
@@ -819,7 +824,7 @@ class XmlDocument(SubXmlBase):
                         pass
 
         else:
-            with parent.element(tag_name, attrib=attrib):
+            with parent.element(tag_name, attrib=attrib, nsmap=nsmap):
                 for e in subelts:
                     parent.write(e)
                 ret = self._get_members_etree(ctx, cls, inst, parent)
